@@ -184,6 +184,13 @@ def main(c):
     text = ""
     for ix, (name, txt) in enumerate(scen):
         rc, out, err = results[ix]
+        if rc == 97:
+            stacks = [l[:160] for l in err.splitlines() if l.startswith("#") or l.startswith("Thread")]
+            if any("sigChildHandler" in l for l in stacks) and any("<signal handler called>" in l for l in stacks):
+                c.report("F22:deadlock-sigchld-handler", "scenario %s did not finish: threads are blocked in ProcessManager::sigChildHandler, called from the SIGCHLD "
+                         "signal handler, on the non-recursive mutex processesAccess already held by the interrupted thread" % name,
+                         {"scenario_name": name, "scenario": txt, "stacks_of_all_threads_after_60s": stacks[:120]}, True)
+                continue
         if rc != 0 or not out:
             c.report("driver:" + name, "driver failed (rc=%d) on scenario %s: %s" % (rc, name, err[-400:]),
                      {"scenario_name": name, "scenario": txt, "stderr": err[-2000:]}, False)
